@@ -77,6 +77,14 @@ func (rt *RoundTripper) cacheResponse(req *http.Request, resp *http.Response) {
 	}
 
 	if expires.IsZero() {
+		// an invalid Expires header, especially the value "0", stands for a time
+		// in the past, that is an already expired response (RFC 7234, section 5.3)
+		if value := resp.Header.Get("Expires"); len(value) != 0 {
+			if _, err = http.ParseTime(value); err != nil {
+				return
+			}
+		}
+
 		if rt.DefaultCacheTTL == 0 {
 			return
 		}
